@@ -26,8 +26,11 @@ EXPLANATION = (
     "and the order generator, (R4/R5) dimension-generic Cartesian code and moment shapes for 1-3 "
     "dimensions, (R6) the rows of every branch of the order generator, evaluated into a symbolic stream "
     "term, equal the documented Horton order as terms (for every `order`).  Necessary for 'Cartesian moments work in one, two and three "
-    "dimensions' and for 'the returned order list names the rows'.  NOT decided: that each entry "
-    "equals the quadrature of its integrand (numerical).")
+    "dimensions' and for 'the returned order list names the rows'.  (R7) Grid.moments evaluated over symbolic points, "
+    "weights, values and two centres (E10, the real order generator interpreted, solid harmonics as point-wise "
+    "uninterpreted functions): every entry equals the quadrature of the basis function its order row names, for all four "
+    "types, dimensions 1-3, orders 0..2 (pure-radial 1..3); (R8) the dipole helper is nuclear minus electronic first "
+    "moments about the centre of mass.  NOT decided: the values of the solid harmonics, accuracy, orders beyond the sweep.")
 RULE = "one instance per third-party attribute reference, per (type, dim) branch, per dispatch key"
 
 
@@ -498,6 +501,9 @@ def run(tier="quick", root="/repo", evidence_dir=None, quiet=False):
     rep.attempt(rule_r4, rep, repo)
     rep.attempt(rule_r5, rep, repo, None)
     rep.attempt(rule_r6, rep, repo)
+    from gridlint import moments_quad
+    rep.attempt(moments_quad.rule_quadratures, rep, repo)
+    rep.attempt(moments_quad.rule_dipole, rep, repo)
     import numpy
     import scipy
     rep.extra.update({"numpy": numpy.__version__, "scipy": scipy.__version__,
